@@ -35,7 +35,7 @@ TEXT = {
 
 TEXT['C19'] = ("Kani/CBMC on the real interpolate.rs: complete proof of is_valid_cap_letter over all byte values; bounded comparison (all templates up to 4 bytes quick / 6 bytes thorough) of find_cap_ref with an executable form of the regex library's documented reference grammar; one listed known finding (braced references, isolated in its own harness so that any other disagreement is still reported); bounded native enumeration of the whole expansion loop of interpolate (templates up to 5 bytes over 8 byte values). The printers' replacement path (Replacer) is not verified.",
                "bounded function-vs-spec-function check with Kani on the real source (include!); Verus cannot take this file (closures with reference patterns, str parsing)")
-TEXT['C15'] = ("Deductive proof (Verus/Z3) that main.rs::run computes the exit status demanded by the property (0 iff matched and (quiet or no error); 2 iff not that and an error occurred; else 1; a parse error is an Err) for every parse result, mode and value of the match/quiet/error facts; the err_message!/message!/ignore_message! macros are run natively for all four states of the message switches (err_message! always records the error). That every per-file error site uses err_message! is not verified.",
+TEXT['C15'] = ("Deductive proof (Verus/Z3) that main.rs::run computes the exit status demanded by the property (0 iff matched and (quiet or no error); 2 iff not that and an error occurred; else 1; a parse error is an Err) for every parse result, mode and value of the match/quiet/error facts; the err_message!/message!/ignore_message! macros are run natively for all four states of the message switches (err_message! always records the error); search_preprocessor / search_decompress keep the broken-pipe kind of a failed search (Verus). The search loops of main.rs (walker iterators, parallel closures) are outside both verifiers: they are covered only by a process-level scenario table run against the built binary (match / no match / unreadable or missing file / --quiet / invalid pattern / --files / dangling symlink / consumer closing the pipe; -j1 and -j2) and, for the printers, by a bounded enumeration of the pipe closing at every byte position.",
                "contract-based deductive verification (Verus) of crates/core/main.rs::run over an abstract environment")
 TEXT['C18'] = ("Deductive proof (Verus/Z3): CommandReader::close for every exit status / wait error / stderr content (waits exactly once, Ok iff success or (early stop and empty stderr), failure surfaces otherwise, idempotent); CommandReader::read records EOF before closing; SearchWorker::search_preprocessor / search_decompress return a result only if both the search of the command's output and close succeeded; should_preprocess / should_decompress equal the selection predicates and SearchWorker::search routes every path to the strategy whose predicate holds.",
                "contract-based deductive verification (Verus) of crates/cli/src/process.rs CommandReader::{close,read} and crates/core/search.rs SearchWorker::{search,should_preprocess,should_decompress,search_preprocessor,search_decompress} over an abstract environment")
